@@ -531,6 +531,19 @@ def rule_adjacent(ctx):
     return rr
 
 
+def _has_category(tree, name):
+    r"""The parsed pattern contains the character category `name` (e.g. the
+    `\d` of CATEGORY_DIGIT), anywhere."""
+    def rec(x):
+        if isinstance(x, (list, tuple)) or hasattr(x, 'data'):
+            for y in (x.data if hasattr(x, 'data') else x):
+                if rec(y):
+                    return True
+            return False
+        return str(x) == name
+    return rec(tree)
+
+
 def rule_num(ctx):
     rr = RuleResult('C18', 'C18.num', 'E6+TAB',
                     'numeric literal language within the domain of the '
@@ -550,6 +563,24 @@ def rule_num(ctx):
     for s in r.groups_named('name'):
         lang |= rx.language(s, max_rep=2, ignorecase=False, reduce=lambda cs: (
             {'0', '7'} if cs >= set('0123456789') else cs))
+    # ASCII digits only: in a str pattern `\d` is every Unicode decimal digit
+    # (no ASCII flag), and int()/float() convert those - a character outside
+    # the grammar would be read as a number instead of being rejected
+    rr.instances += 1
+    import re as _re_mod
+    uni = _has_category(r.tree, 'CATEGORY_DIGIT')
+    if uni and not (r.flags & _re_mod.ASCII):
+        rr.fail(key_of(comp, 'numeric literal admits non-ASCII digits'),
+                'the Number regex uses `\\d` without the ASCII flag: it matches '
+                'every Unicode decimal digit and %s converts them, so text '
+                'such as an Arabic-Indic or full-width digit is read as a '
+                'number instead of being rejected as outside the grammar'
+                % '/'.join(sorted(convs & {'int', 'float'}) or ['the '
+                                                               'conversion']),
+                file=comp.module.rel, function='Number._re', line=comp.lineno)
+    else:
+        rr.ok('the Number regex writes its digits as ASCII ranges',
+              comp.module.rel)
     rr.instances += 1
     bools = {'TRUE', 'FALSE'}
     numeric = sorted(x for x in lang if x.upper() not in bools)
@@ -660,7 +691,63 @@ def rule_num(ctx):
     return rr
 
 
+def rule_drain(ctx):
+    rr = RuleResult('C18', 'C18.drain', 'MPT',
+                    'at the end of the input every entry left on the operator '
+                    'stack is examined: an opening parenthesis anywhere in it '
+                    'is an error', floor=1)
+    p = ctx.project
+    f = p.func('formulas/parser.py', 'Parser.ast')
+    close = None
+    for i, st in enumerate(f.node.body):
+        if isinstance(st, ast.Expr) and isinstance(st.value, ast.Call) and \
+                isinstance(st.value.func, ast.Attribute) and \
+                st.value.func.attr == 'ast' and isinstance(
+                st.value.func.value, ast.Call) and call_name(
+                st.value.func.value) == 'Parenthesis' and \
+                st.value.func.value.args and isinstance(
+                st.value.func.value.args[0], ast.Constant) and \
+                st.value.func.value.args[0].value == ')' and len(
+                st.value.args) >= 2 and isinstance(st.value.args[1], ast.Name):
+            close = (i, st.value.args[1].id)
+    if close is None:
+        raise AnalysisError('Parser.ast: the closing parenthesis pushed at the '
+                            'end of the input was not found')
+    i, stack = close
+    rest = f.node.body[i + 1:]
+    rr.instances += 1
+    loops = [st for st in rest if isinstance(st, (ast.While, ast.For)) and any(
+        isinstance(x, ast.Name) and x.id == stack for x in ast.walk(
+            st.test if isinstance(st, ast.While) else st.iter))]
+    tests = [st for st in rest if isinstance(st, ast.If) and any(
+        isinstance(x, ast.Name) and x.id == stack for x in ast.walk(st.test))]
+    if loops:
+        lp = loops[0]
+        raises = any(isinstance(x, ast.Raise) for x in ast.walk(lp))
+        if raises:
+            rr.ok('Parser.ast walks the whole stack after the last token and '
+                  'raises on a left-over parenthesis', '%s:%d' % (
+                      f.module.rel, lp.lineno))
+        else:
+            rr.fail(key_of(f, 'left-over parenthesis accepted'),
+                    'the loop that empties the operator stack at the end of '
+                    'the input no longer raises for a left-over opening '
+                    'parenthesis', file=f.module.rel, function=f.qualname,
+                    line=lp.lineno)
+    elif tests:
+        rr.fail(key_of(f, 'only the top of the stack examined'),
+                'after the last token Parser.ast tests `%s` once instead of '
+                'walking the stack: an unclosed parenthesis under a pending '
+                'operator (`=-(1`) is not seen, the formula is accepted and '
+                'the operator silently dropped' % norm_src(tests[0].test),
+                file=f.module.rel, function=f.qualname, line=tests[0].lineno)
+    else:
+        raise AnalysisError('Parser.ast: what happens to the operator stack '
+                            'after the last token was not recognised')
+    return rr
+
+
 def run(ctx):
     S = ctx.soft
     return [S(rule_esc, ctx), S(rule_reject, ctx), S(rule_arity, ctx),
-            S(rule_adjacent, ctx), S(rule_num, ctx)]
+            S(rule_adjacent, ctx), S(rule_num, ctx), S(rule_drain, ctx)]
